@@ -737,3 +737,19 @@ def canon_first(v):
         found = ("proj", v[1], (("Option::Some", "0"),))
         return finish(nest, tests, arms["Option::Some"], arms["Option::None"], {found: elem})
     return None
+
+
+def lift_proj(t):
+    """projections pushed into the arms of a conditional: `(match t { P => (a, b), _ => panic }).0` = `match t { P => a, _ => panic }` (nothing is
+    hoisted out of constructors)"""
+    if not isinstance(t, tuple) or not t:
+        return t
+    t = tuple(lift_proj(x) if isinstance(x, tuple) else x for x in t)
+    if t[0] == "proj" and len(t) == 3 and isinstance(t[1], tuple) and t[1]:
+        c = t[1]
+        keep = lambda v: v if (isinstance(v, tuple) and v[:1] in (("never",), ("panic",))) else lift_proj(sym.proj_reduce(v, t[2]))
+        if c[0] == "match" and len(c) == 3 and isinstance(c[2], tuple):
+            return ("match", c[1], tuple(a[:-1] + (keep(a[-1]),) for a in c[2]))
+        if c[0] == "if" and len(c) == 4:
+            return ("if", c[1], keep(c[2]), keep(c[3]))
+    return t
